@@ -150,6 +150,7 @@ def renderXTree (t : XTree) : String :=
     | .dir => s!"{Driver.hex k}:d"
     | .file d => s!"{Driver.hex k}:f:{d.length}:{fnv d}"
     | .sym tgt => s!"{Driver.hex k}:s:{Driver.hex tgt}"
+    | .hard tgt => s!"{Driver.hex k}:h:{Driver.hex tgt}"
     | .special => s!"{Driver.hex k}:x").mergeSort strLe)
 
 def stepLine (s : St) (l : String) : St × String :=
